@@ -376,7 +376,29 @@ func init() {
 		return s
 	})
 	E("strings.Count", func(fr *frame, args []value) value {
-		return strings.Count(valuesToString(args[0]), valuesToString(args[1]))
+		a, sep := byteSeq(args[0]), byteSeq(args[1])
+		if len(sep) == 1 {
+			return countByteSeq(a, sep[0])
+		}
+		if len(sep) == 0 {
+			return strings.Count(valuesToString(args[0]), "")
+		}
+		// non-overlapping occurrences, left to right
+		n := 0
+		for i := 0; i+len(sep) <= len(a); {
+			t := seqEqTerm(a[i:i+len(sep)], sep)
+			hit := t == "true"
+			if t != "true" && t != "false" {
+				hit = X.decide(t)
+			}
+			if hit {
+				n++
+				i += len(sep)
+			} else {
+				i++
+			}
+		}
+		return n
 	})
 	E("strings.Replace", func(fr *frame, args []value) value {
 		return strings.Replace(valuesToString(args[0]), valuesToString(args[1]), valuesToString(args[2]), int(asInt64(args[3])))
